@@ -244,5 +244,5 @@ pub fn run(g: &mut Global) {
         &check,
     );
     let th = g.tier == Tier::Thorough;
-    g.random("random", g.tier.pick(40000, 400000), &move || strategy(th), &check);
+    g.random("random", g.tier.pick(100000, 1000000), &move || strategy(th), &check);
 }
